@@ -207,7 +207,7 @@ const (
 )
 
 // c16RaceClass: no race pair is listed any more — both confirmed races are repaired in /repo (db2770f: read lock in
-// IsNamespaceScoped; <COMMIT>: SetSchema keeps the parsed schema when the built-in version in use is selected again).
+// IsNamespaceScoped; 5e76c27: SetSchema keeps the parsed schema when the built-in version in use is selected again).
 // Every reported pair keeps a class that names the function pair (unlisted => VIOLATION), also in rounds that
 // contain trees spelling out `openapi: version: <default>`.
 func c16RaceClass(rep c16RaceReport, explicitVersion bool) string {
